@@ -106,6 +106,11 @@ func zzH_C18_wrap() {
 	// two-level chain
 	w2 := NewProtocolExceptionWithErr(&zzWrap{cause})
 	zzAssert(errors.Is(w2, cause), "cause two levels down is not matchable")
+	// a non-protocol error that merely wraps a protocol exception further down is wrapped, not unpacked
+	outer := &zzWrap{NewProtocolException(INVALID_DATA, "inner")}
+	w3 := NewProtocolExceptionWithErr(outer)
+	zzAssert(errors.Unwrap(w3) == error(outer), "wrapping a foreign error that contains a protocol exception lost the outer error")
+	zzAssert(w3.TypeId() == UNKNOWN_PROTOCOL_EXCEPTION, "wrapping a foreign error took over an inner exception's type id")
 	// Is: same type id and same text
 	id2 := int32(zzU32("typeid2"))
 	msg2 := zzString("msg2", zzPick("msglen2", 0, 2))
@@ -267,9 +272,11 @@ func zzH_C16_independent() {
 	zzAssertEqBytes(v1, c1, "first value changed when the input buffer was reused")
 	zzAssertEqBytes(v2, c2, "second value changed when the input buffer was reused")
 	// overwrite and extend the first value: the second must not change
+	encSnap := append([]byte(nil), enc...)
 	copy(v1, zzBytes("scribble1", len(v1)))
 	v1 = append(v1, zzBytes("extra", zzInt("nextra", 1, 64))...)
 	zzAssertEqBytes(v2, c2, "second value changed when the first was modified or appended to")
+	zzAssertEqBytes(enc, encSnap, "modifying or appending to a returned value altered the input buffer")
 	_ = v1
 	zzReach("done")
 }
